@@ -176,6 +176,12 @@ def pyfftw_call(array_in, array_out, direction='forward', axes=None,
         if wisdom:
             pyfftw.import_wisdom(wisdom)
 
+    # A plan can only be reused for arrays with the same memory layout
+    if (fftw_plan_in is not None and
+            (array_in.strides != fftw_plan_in.input_strides or
+             array_out.strides != fftw_plan_in.output_strides)):
+        fftw_plan_in = None
+
     # Copy input array if it hasn't been done yet and the planner is likely
     # to destroy it. If we already have a plan, we don't have to worry.
     planner_destroys = _pyfftw_destroys_input(
